@@ -297,8 +297,18 @@ func (e *Engine) algBuiltin(env *Env, name string, ex *SExpr) (Val, bool) {
 			env.errf("vals() needs a slice of field/group elements or of integers: %s", ex)
 			return Val{}, false
 		}
-		w := env.st.freshConst("vals", fmt.Sprintf("(Array Int %s)", es))
-		env.st.assume(fmt.Sprintf("(forall ((i!v Int)) (! (= (select %s i!v) %s) :pattern ((select %s i!v))))", w, at, w))
+		ckey := "vals|" + at
+		w, seen := env.st.elemsDone[ckey]
+		if !seen {
+			w = env.st.freshConst("vals", fmt.Sprintf("(Array Int %s)", es))
+			env.st.assume(fmt.Sprintf("(forall ((i!v Int)) (! (= (select %s i!v) %s) :pattern ((select %s i!v))))", w, at, w))
+			nd := make(map[string]string, len(env.st.elemsDone)+1)
+			for k, v := range env.st.elemsDone {
+				nd[k] = v
+			}
+			nd[ckey] = w
+			env.st.elemsDone = nd
+		}
 		return Val{S: w, T: &ghostMapType{key: types.Typ[types.Int], elem: et}}, true
 	case "val":
 		declareAlgebra()
